@@ -4,6 +4,7 @@ import (
 	"fmt"
 
 	"github.com/karagenc/socket.io-go/internal/sync"
+	"github.com/karagenc/socket.io-go/internal/vhook"
 
 	mapset "github.com/deckarep/golang-set/v2"
 	"github.com/karagenc/socket.io-go/parser"
@@ -58,6 +59,7 @@ func (a *inMemoryAdapter) AddAll(sid SocketID, rooms []Room) {
 			r.Add(sid)
 		}
 	}
+	vhook.Event("rooms.add", "o", a, "sid", sid, "rooms", rooms)
 }
 
 func (a *inMemoryAdapter) Delete(sid SocketID, room Room) {
@@ -70,6 +72,7 @@ func (a *inMemoryAdapter) Delete(sid SocketID, room Room) {
 	}
 
 	a.delete(sid, room)
+	vhook.Event("rooms.del", "o", a, "sid", sid, "room", room)
 }
 
 func (a *inMemoryAdapter) delete(sid SocketID, room Room) {
@@ -97,6 +100,7 @@ func (a *inMemoryAdapter) DeleteAll(sid SocketID) {
 	})
 
 	delete(a.sids, sid)
+	vhook.Event("rooms.delall", "o", a, "sid", sid)
 }
 
 func (a *inMemoryAdapter) Broadcast(header *parser.PacketHeader, v []any, opts *BroadcastOptions) {
@@ -173,6 +177,7 @@ func (a *inMemoryAdapter) apply(opts *BroadcastOptions, callback func(socket Soc
 	a.mu.Lock()
 
 	exceptSids := a.computeExceptSids(opts.Except)
+	vhook.Event("apply.start", "o", a, "T", opts.Rooms, "E", opts.Except)
 
 	// If a room was specificed in opts.Rooms,
 	// we only use sockets in those rooms.
@@ -192,6 +197,8 @@ func (a *inMemoryAdapter) apply(opts *BroadcastOptions, callback func(socket Soc
 				socket, ok := a.sockets.Get(sid)
 				if ok {
 					a.mu.Unlock()
+					vhook.Event("apply.cb", "o", a, "sid", sid)
+					vhook.Yield("adapter.apply.window", a)
 					callback(socket)
 					a.mu.Lock()
 					ids.Add(sid)
@@ -208,11 +215,14 @@ func (a *inMemoryAdapter) apply(opts *BroadcastOptions, callback func(socket Soc
 			socket, ok := a.sockets.Get(sid)
 			if ok {
 				a.mu.Unlock()
+				vhook.Event("apply.cb", "o", a, "sid", sid)
+				vhook.Yield("adapter.apply.window", a)
 				callback(socket)
 				a.mu.Lock()
 			}
 		}
 	}
+	vhook.Event("apply.end", "o", a)
 	a.mu.Unlock()
 }
 
